@@ -136,6 +136,9 @@ const kMaxDeltaTtl = 60 * 60 * 24 * 30 // Constant used by CBS
 
 // The current time, as an expiry value
 func nowAsExpiry() Exp {
+	if t, ok := verifNowOverride(); ok {
+		return t
+	}
 	return uint32(time.Now().Unix())
 }
 
